@@ -175,12 +175,12 @@ fn add<V: Full>(prop: &mut Property, ctx: &Ctx) {
         let blocks = carry_blocks();
         // nonce alphabet index: 0..4 plain patterns, then the carry blocks
         let npat = 4 + blocks.len();
-        let rad = [kinds.len() as u64, 2, npat as u64];
+        let rad = [kinds.len() as u64, 2, npat as u64, 2];
         prop.subs.push(
             Sub::new(
                 format!("{name}/spec-blob-opens"),
                 product(&rad),
-                format!("5 PASERK operations x 2 keys x {npat} embedded nonce / salt / ephemeral values (00.., ff.., counting, vector-like, and {} AES-CTR counter blocks whose low 64 bits carry inside the wrapped key: directly in the PBKW nonce, through the cfg(paseto_verif) seam for the KDF-derived PIE / PKE counter): the blob built by the reference model opens in the library to the model's key", blocks.len()),
+                format!("5 PASERK operations x 2 keys x 2 PBKW costs x {npat} embedded nonce / salt / ephemeral values (00.., ff.., counting, vector-like, and {} AES-CTR counter blocks whose low 64 bits carry inside the wrapped key: directly in the PBKW nonce, through the cfg(paseto_verif) seam for the KDF-derived PIE / PKE counter): the blob built by the reference model opens in the library to the model's key", blocks.len()),
                 move |idx, describe| {
                     let ix = unrank(idx, &rad);
                     let kind = kinds[ix[0]];
@@ -188,7 +188,8 @@ fn add<V: Full>(prop: &mut Property, ctx: &Ctx) {
                     let pat = ix[2];
                     let mut o = Outcome::new();
                     let aes = V::VER == 1 || V::VER == 3;
-                    if pat >= 4 && !aes {
+                    let cost = [Cost::Min, Cost::Small][ix[3]];
+                    if (pat >= 4 && !aes) || (ix[3] != 0 && !matches!(kind, Kind::PwLocal | Kind::PwSecret)) {
                         o.nontrivial = 0;
                         o.class("n/a");
                         return o;
@@ -206,7 +207,7 @@ fn add<V: Full>(prop: &mut Property, ctx: &Ctx) {
                     let wk = &ks.locals[(2 + v) % ks.locals.len()].bytes;
                     let pair = &ks.pke[v % ks.pke.len()];
                     let pw = b"hunter2".to_vec();
-                    let pbytes = params_to_bytes::<V>(&params_for::<V>(Cost::Min));
+                    let pbytes = params_to_bytes::<V>(&params_for::<V>(cost));
                     let block = if pat >= 4 { Some(blocks[pat - 4]) } else { None };
                     if describe {
                         o.sample = Some(json!({"backend": name, "kind": kind.header(), "variant": v, "pattern": pat, "counter_block": block.map(|b| hexs(&b))}));
@@ -346,6 +347,39 @@ pub fn build(ctx: &Ctx) -> Property {
     add::<backends::V3L>(&mut p, ctx);
     add::<backends::V4>(&mut p, ctx);
     add::<backends::V4S>(&mut p, ctx);
+    macro_rules! seq {
+        ($V:ty) => {{
+            let b = <$V as Full>::NAME;
+            // wrap-equals-spec: [kind(5), key, rng answer(4), cost(5)]; password wrap of key 0 under the all-zero salt
+            // with every cost (same password, same salt, different cost), plus a spread
+            let name = format!("{b}/wrap-equals-spec");
+            if let Some(len) = p.subs.iter().find(|s| s.name == name).map(|s| s.len) {
+                let nkeys = len / (5 * 4 * 5);
+                let rank = |k: u64, v: u64, e: u64, c: u64| ((k * nkeys + v) * 4 + e) * 5 + c;
+                let mut picks: Vec<u64> = (0..5).map(|c| rank(2, 0, 1, c)).collect();
+                picks.extend(crate::perturb::spread(len, 3));
+                picks.sort();
+                picks.dedup();
+                crate::perturb::add_sequences::<$V>(&mut p, &name, picks);
+            }
+            // spec-blob-opens: [kind(5), key(2), pattern, cost(2)]; the same salt and password under both costs
+            let name = format!("{b}/spec-blob-opens");
+            let len = p.subs.iter().find(|s| s.name == name).map(|s| s.len).unwrap_or(0);
+            let npat = len / 20;
+            let rank = |k: u64, v: u64, pt: u64, c: u64| ((k * 2 + v) * npat + pt) * 2 + c;
+            let mut picks = vec![rank(2, 0, 0, 0), rank(2, 0, 0, 1), rank(3, 1, 2, 0), rank(3, 1, 2, 1)];
+            picks.extend(crate::perturb::spread(len, 3));
+            picks.sort();
+            picks.dedup();
+            crate::perturb::add_sequences::<$V>(&mut p, &name, picks);
+        }};
+    }
+    seq!(backends::V1);
+    seq!(backends::V2);
+    seq!(backends::V3);
+    seq!(backends::V3L);
+    seq!(backends::V4);
+    seq!(backends::V4S);
     siblings(&mut p, ctx);
     p.assume("reference models from the PASERK specification (validated on the official vectors; PBKW vectors above the 64 MiB budget only in the thorough tier); draws are owned through getrandom 0.3 / libsodium randombytes; for aws-lc the model re-derives from the values embedded in the library's output");
     p.assume("password-wrap inputs that are not specification-conforming (Argon2 parallelism != 1, PBKDF2 with 0 iterations) are outside the statement and not compared between siblings");
